@@ -35,6 +35,7 @@ func C01(r *core.Run) {
 	rules.UniqueCase(r, codecRel, "decoder.decodeMapField", "lib/j5reflect")
 	arrayDecodeCoverage(r)
 	whoTouchesProto(r)
+	presentNeverSkipped(r, "lib/j5reflect", "propSet.RangeValues", "every present property is encoded") // an allocated but empty wrapper is a value
 	anyContent(r) // an Any of an all-default message still carries (empty) content
 }
 
@@ -51,11 +52,7 @@ func encodeDecodeMatrix(r *core.Run, w *wireCtx) {
 	}
 	// class per Go type from encodeScalarField
 	classOf := map[string]string{}
-	ast.Inspect(efd.Body, func(n ast.Node) bool {
-		cc, ok := n.(*ast.CaseClause)
-		if !ok {
-			return true
-		}
+	for _, cc := range w.scalarCases(efd) {
 		for _, te := range cc.List {
 			t := w.info.TypeOf(te)
 			if t == nil {
@@ -80,8 +77,7 @@ func encodeDecodeMatrix(r *core.Run, w *wireCtx) {
 				classOf[core.TypeStr(t)] = "mixed"
 			}
 		}
-		return true
-	})
+	}
 	// per kind clause of the producer: returned Go types
 	type kindInfo struct {
 		goTypes map[string]bool
